@@ -105,6 +105,7 @@ class SymX:
         self.defs = []              # definitional assertions (total: aux var domains/definitions)
         self.recomp = []            # (term_expr, [(var, offset, bits)]) positional recompositions seen
         self.range_vars = {}        # z3 var name -> (var, bits)
+        self.rng_limbs = {}         # z3 var name -> (var, [limb classes, little endian]) of collapsed limbs
         self.input_classes = set()
         for n in (inputs or []):
             self.input_classes.update(self.ir["named"][n])
@@ -456,6 +457,7 @@ class SymX:
             self.stats["range_vars"] += 1
             x = self.fresh_int(f"rng{r}", 0, (1 << free_prefix) - 1)
             self.range_vars[str(x)] = (x, free_prefix)
+            self.rng_limbs[str(x)] = (x, [c for c in limbs[:free_prefix]])
             return T.integer(x, 0, (1 << free_prefix) - 1)
         tot = z3.IntVal(0)
         lo = hi = 0
